@@ -320,6 +320,11 @@ def replay_path(prog: dict, basedb: str, rows: list[dict], writers: list[str], p
 
 
 def _job(args):
+    # the racing threads run under the baton: the real back-off sleeps of the retry policies (up to seconds each) only
+    # slow the replay down - in this worker process they return at once
+    import time
+
+    time.sleep = lambda _s: None
     prog, basedb, rows, writers, paths, seeds, terminal, init = args[:8]
     mode = args[9] if len(args) > 9 else "progress"
     bad = []
@@ -384,7 +389,7 @@ def component(rep: Reporter, tier: str, seed: int, mode: str = "progress") -> di
             if not r.ok and not r.violated:
                 rep.machinery_failure(f"TLC on {spec} ({attempt},{nw}): " + r.out[-1500:])
                 continue
-            paths = paths_of(edges, init, 400 if quick else 5000, rng)
+            paths = paths_of(edges, init, 400 if quick else (3000 if nw <= 2 else 800), rng)
             term_states = {s for ts in edges.values() for s in ts} | set(edges.keys())
             terminal = []
             for s in term_states:
@@ -401,7 +406,7 @@ def component(rep: Reporter, tier: str, seed: int, mode: str = "progress") -> di
             n = 10
             for i in range(0, len(paths), n):
                 jobs.append((prep["prog"], db, rows, writers, paths[i:i + n], [], terminal, init, attempt, mode))
-            nrand = 60 if quick else 1000
+            nrand = 60 if quick else (1000 if nw <= 2 else 300)
             seeds = [rng.randrange(1 << 30) for _ in range(nrand)]
             for i in range(0, len(seeds), 10):
                 jobs.append((prep["prog"], db, rows, writers, [], seeds[i:i + 10], terminal, init, attempt, mode))
